@@ -63,6 +63,9 @@ def sweep_scenarios(quick, seed):
             # (the sweep runs at 5 ticks + jump; 1000 ns later the quiescent run is still inside that tick, and more than a tick after both the
             # deadline and the return of the write)
             out.append({"ttl": ttl, "jump": jump, "later": 1000, "op": "late.set", "sized": k % 2, "syncexec": (k // 2) % 2, "warm": 0, "max": 0})
+    # save / load of entries that never expire / are never due, into a cache whose clock moves between any two readings (C19)
+    for k, jump in enumerate((0, 1000, 3 * TICK)):
+        out.append({"ttl": 0, "jump": jump, "later": 0, "op": "persist.step", "sized": k % 2, "syncexec": 1, "warm": 0, "max": 0})
     # stale-node eviction while a load of the key is in flight (C08)
     for op in ("ld.staleevict.inv", "ld.staleevict.set"):
         out.append({"ttl": 0, "jump": 0, "later": 0, "op": op, "sized": 1, "syncexec": 0, "warm": 0, "max": 0})
@@ -91,7 +94,7 @@ def sweep_scenarios(quick, seed):
 
 
 def sc_is_foreign(sc):
-    return sc["op"].startswith("ld.")
+    return sc["op"].startswith(("ld.", "persist."))
 
 
 def expire_race_cfg(readers, nreads, ttl, maxclock, nsweeps, sized, resurrect, writer="", reread=False):
@@ -153,6 +156,10 @@ def read_race_half(prop, tier, mc_out=None):
         scs = [sc for sc in sweep_scenarios(False, seed) if sc["op"].startswith("sia.") or sc["op"] == "gate.size"]
     elif prop == "C08":
         scs = [sc for sc in sweep_scenarios(False, seed) if sc["op"].startswith("ld.")]
+    elif prop == "C19":
+        scs = [sc for sc in sweep_scenarios(False, seed) if sc["op"].startswith("persist.")]
+    elif prop == "C20":
+        scs = [sc for sc in sweep_scenarios(False, seed) if sc["op"] == "sia.cmpgate"]
     else:
         scs = [sc for sc in sweep_scenarios(False, seed) if sc["op"].startswith("read.")]
         if tier == "quick":
@@ -327,7 +334,7 @@ def run(prop, tier, replay=None):
                     total = sc["jump"] + sc["later"]
                     r["mustsweep"] = 1 if (total - sc["ttl"] > TICK and sc["later"] > TICK) else 0
                     r["deadlinepassed"] = 1 if sc["ttl"] <= total else 0
-                    if sc["op"].startswith(("mass.", "ld.")):
+                    if sc["op"].startswith(("mass.", "ld.", "persist.")):
                         r["mustsweep"], r["deadlinepassed"] = 0, 1
                     if sc["op"].startswith("late."):
                         r["mustsweep"], r["deadlinepassed"] = 1, 1
